@@ -63,7 +63,9 @@ def run(cmd, cwd=None, timeout=1200, env=None):
 def translators():
   """name -> (callable producing the text, properties that depend on it)"""
   import translate_query
-  out = {'Src_query': lambda: translate_query.translate(os.path.join(REPO, 'metric_learn', 'base_metric.py'))}
+  import translate_init
+  out = {'Src_query': lambda: translate_query.translate(os.path.join(REPO, 'metric_learn', 'base_metric.py')),
+         'Src_init': lambda: translate_init.translate(REPO)}
   try:
     import translate_all
     out.update(translate_all.TRANSLATORS)
